@@ -171,6 +171,13 @@ PROPS = {
                 "the C14 scenarios' end-state checks (no library goroutine, no open socket after Close).",
         "partial": "GC and OS socket teardown are runtime",
     },
+    "C17": {
+        "kind": "client", "modules": ["OAP.Props.C17"], "keys": [], "race": True, "owns_crashes": False,
+        "rule": "witness search: the scenario suites of C05-C08, C12-C15 (concurrent Do, responses/pushes/pings, keepalive ticks, loss and reconnect, "
+                "Close, gates) and the codec's concurrent runs re-executed with a race-detector build of the harness (unit doubled); a report whose "
+                "stacks are inside the library is a concrete racy schedule (replay = scenario + the report).",
+        "partial": "the theorem is about an abstract memory model; -race only samples schedules",
+    },
     "C20": {
         "kind": "client", "modules": ["OAP.Props.C20"], "keys": ["ws_control_mapping", "trace_equiv", "echo", "ping_callback"], "cross_transport": True,
         "rule": "one peer script (success, error status, pushes, peer heartbeat, undecodable frame, peer-initiated close with reason, abrupt drop, requests "
